@@ -50,9 +50,14 @@ def write_spy(on_boundary):
 STAGES = ["geometry", "spot", "spectrum", "taus", "decay", "optical_eas", "optical_integral", "radio_eas", "snr", "radio_integral"]
 
 
+INNER_STAGES = ["geometry", "spectrum", "taus", "optical_eas", "radio_eas"]
+
+
 @contextlib.contextmanager
-def stage_fault(stage, kind="error"):
-    """make the given stage raise InjectedFault / InjectedInterrupt when compute() reaches it (None: no fault)."""
+def stage_fault(stage, kind="error", depth="entry"):
+    """make the given stage raise InjectedFault / InjectedInterrupt when compute() reaches it (None: no fault).
+    depth "entry": the stage's callable itself is replaced; depth "inner" (INNER_STAGES only): something the stage's REAL,
+    decorated callable calls raises, so that the failure passes through the result-store / plot decorators."""
     import importlib
     import sys
 
@@ -74,6 +79,33 @@ def stage_fault(stage, kind="error"):
         yield
         return
     try:
+        if depth == "inner":
+            import importlib as _il
+
+            if stage == "geometry":
+                for cname in ("RegionGeom", "RegionGeomToO"):
+                    patch(cname, type(cname + "Faulty", (getattr(C, cname),), {"throw": raising}))
+            elif stage == "spectrum":
+                sm = _il.import_module("nuspacesim.simulation.spectra.spectra")
+                real_es = sm.energy_spectra
+                sm.energy_spectra = raising
+                saved["__restore_spectra__"] = (sm, real_es)
+            elif stage == "taus":
+                patch("Taus", type("TausFaulty", (C.Taus,), {"tau_exit_prob": raising}))
+            elif stage == "optical_eas":
+                base = C.EAS
+
+                def _init(self, *a, _b=base, **k):
+                    _b.__init__(self, *a, **k)
+                    self.CphotAng = raising
+
+                patch("EAS", type("EASFaulty", (base,), {"__init__": _init}))
+            elif stage == "radio_eas":
+                patch("EASRadio", type("EASRadioFaulty", (C.EASRadio,), {"get_decay_view": raising}))
+            else:
+                raise ValueError(stage)
+            yield
+            return
         if stage in ("geometry", "spot", "optical_integral", "radio_integral"):
             for cname in ("RegionGeom", "RegionGeomToO"):
                 base = getattr(C, cname)
@@ -110,7 +142,10 @@ def stage_fault(stage, kind="error"):
         yield
     finally:
         for n, o in saved.items():
-            setattr(C, n, o)
+            if n == "__restore_spectra__":
+                o[0].energy_spectra = o[1]
+            else:
+                setattr(C, n, o)
 
 
 def in_child(fn):
